@@ -78,6 +78,9 @@ def _type_of_node(node) -> Any:
         if base in ('Array',):
             k, v = node.slice.elts
             return ('array', _type_of_node(k), _type_of_node(v))
+        if base in ('Map',):
+            k, v = node.slice.elts
+            return ('map', _type_of_node(k), _type_of_node(v))
         return 'U'
     return 'U'
 
@@ -178,6 +181,15 @@ class SDict:
         self.kt, self.vt = kt, vt
         self.val = val  # z3 Function K -> V
         self.has = has  # z3 Function K -> Bool
+
+
+class SMap:
+    """a mutable finite map (dict / set) as total arrays: has: K -> Bool, val: K -> V, and its cardinality `size`, which the
+    executor updates on every insertion of a new key / deletion of a present key (size is the cardinality by construction;
+    a fresh map only knows size >= 0)"""
+
+    def __init__(self, has, val, size, kt, vt):
+        self.has, self.val, self.size, self.kt, self.vt = has, val, size, kt, vt
 
 
 class SDotted:
@@ -321,6 +333,8 @@ def type_of_value(v):
         return 'str'
     if isinstance(v, SList):
         return ('list', v.et)
+    if isinstance(v, SMap):
+        return ('map', v.kt, v.vt)
     if isinstance(v, tuple):
         return ('tuple', tuple(type_of_value(x) for x in v))
     if isinstance(v, z3.ExprRef):
@@ -414,6 +428,8 @@ def fresh_value(t, base):
         r = SRecord('rec', {n: fresh_value(tx, '%s.%s' % (base, n)) for n, tx in t[1]})
         r.rtype = t
         return r
+    if isinstance(t, tuple) and t[0] == 'map':
+        return SMap(z3.Const(fresh_name(base + '.has'), z3.ArraySort(sort_of(t[1]), z3.BoolSort())), z3.Const(fresh_name(base + '.val'), z3.ArraySort(sort_of(t[1]), sort_of(t[2]))), z3.Int(fresh_name(base + '.size')), t[1], t[2])
     if isinstance(t, tuple) and t[0] == 'dict':
         items = fresh_value(('list', ('tuple', (t[1], t[2]))), base + '.items')
         val = z3.Function(fresh_name(base + '.val'), sort_of(t[1]), sort_of(t[2]))
@@ -434,6 +450,8 @@ def wf_constraints(v) -> List[Any]:
     if isinstance(v, tuple):
         for x in v:
             out.extend(wf_constraints(x))
+    if isinstance(v, SMap):
+        out.append(v.size >= 0)
     if isinstance(v, SDict):
         it = v.items
         out.append(it.len >= 0)
@@ -492,6 +510,7 @@ class Contract:
     setup: Optional[Callable] = None  # setup(engine, state): bind extra environment entries after the inputs exist
     drop_decorators: bool = True
     float_as_real: bool = False
+    opaque_methods: bool = False  # unmodelled methods of opaque (U) receivers are recorded as unmodelled calls instead of Undecided
     strings: bool = False  # f-strings / str() / + on strings build z3 String terms (str of an int is the uninterpreted str_int)
     float_model: str = 'exact'  # 'exact': float ops are real ops (assumption recorded by the contract module);
     #                             'relerr': every float operation result is the real result times (1+d), |d| <= 2**-53
@@ -997,7 +1016,18 @@ class Engine:
             for x in t.elts:
                 self.delete(x, st)
             return
+        if isinstance(t, ast.Subscript):
+            cont = self.ev(t.value, st)
+            if isinstance(cont, SMap):
+                self.assign(t.value, self.map_remove(cont, self.ev(t.slice, st), st, t), st)
+                return
         raise Undecided('del not supported here: %s' % ast.unparse(t))
+
+    def map_remove(self, m, key, st, node):
+        k = to_z3(key, m.kt)
+        self.oblige(st, 'safety/key-present@L%d' % getattr(node, 'lineno', 0), z3.Select(m.has, k), kind='safety')
+        st.assume(z3.Implies(z3.Select(m.has, k), m.size >= 1))  # size is the cardinality: a map with a member is not empty
+        return SMap(z3.Store(m.has, k, False), m.val, m.size - 1, m.kt, m.vt)
 
     def make_exc(self, node, st) -> SExc:
         if isinstance(node, ast.Call):
@@ -1040,6 +1070,9 @@ class Engine:
         raise Undecided('assignment target %s' % ast.unparse(target))
 
     def store(self, cont, idx, v, st, node):
+        if isinstance(cont, SMap):
+            k = to_z3(idx, cont.kt)
+            return SMap(z3.Store(cont.has, k, True), z3.Store(cont.val, k, to_z3(v, cont.vt)), cont.size + z3.If(z3.Select(cont.has, k), 0, 1), cont.kt, cont.vt)
         if isinstance(cont, SRecord) and isinstance(idx, str):
             cont.fields[idx] = v
             return cont
@@ -1329,6 +1362,8 @@ class Engine:
                 return self.uf('truthy', ['U'], 'bool')(v)
         if isinstance(v, SDict):
             return v.items.len > 0
+        if isinstance(v, SMap):
+            return v.size > 0
         if isinstance(v, SRecord):
             return z3.BoolVal(True)
         if isinstance(v, SFrac):
@@ -1373,7 +1408,7 @@ class Engine:
             if name in STDLIB_INT_CONSTS:
                 return STDLIB_INT_CONSTS[name]
             return SDotted(name)
-        if isinstance(base, (SList, tuple, SDict)) or (isinstance(base, z3.ExprRef) and base.sort() != U):
+        if isinstance(base, (SList, tuple, SDict, SMap)) or (isinstance(base, z3.ExprRef) and base.sort() != U):
             return ('boundmethod', base, attr)
         if isinstance(base, SExc):
             if base.term is not None:
@@ -1521,6 +1556,8 @@ class Engine:
         raise Undecided('equality between %s and %s' % (type_key(ta), type_key(tb)))
 
     def contains(self, cont, x, st):
+        if isinstance(cont, SMap):
+            return z3.Select(cont.has, to_z3(x, cont.kt))
         if isinstance(cont, SDict):
             return cont.has(to_z3(x, cont.kt))
         if isinstance(cont, SRecord) and isinstance(x, str):
@@ -1745,6 +1782,11 @@ class Engine:
             if not getattr(self, 'in_spec', False) and node is not None:
                 self.oblige(st, 'safety/key-present@L%d' % getattr(node, 'lineno', 0), cont.has(k), kind='safety')
             return from_z3(cont.val(k), cont.vt)
+        if isinstance(cont, SMap):
+            k = to_z3(idx, cont.kt)
+            if not getattr(self, 'in_spec', False) and node is not None:
+                self.oblige(st, 'safety/key-present@L%d' % getattr(node, 'lineno', 0), z3.Select(cont.has, k), kind='safety')
+            return from_z3(z3.Select(cont.val, k), cont.vt)
         if isinstance(cont, SRecord) and isinstance(idx, str):
             if idx in cont.fields:
                 return cont.fields[idx]
@@ -1831,7 +1873,7 @@ class Engine:
         """str(v) as a z3 String term; str of an int / opaque value is an uninterpreted function of it"""
         if isinstance(v, str):
             return z3.StringVal(v)
-        if isinstance(v, bool):
+        if isinstance(v, bool) or v is None:
             return z3.StringVal(str(v))
         if isinstance(v, int):
             return self.uf('str_int', ['int'], 'str')(z3.IntVal(v))
@@ -1845,7 +1887,16 @@ class Engine:
         raise Undecided('str() of %r' % (v,))
 
     def ev_Await(self, node, st):
-        return self.ev(node.value, st)
+        if id(node) in st.decided:
+            kind, payload = st.decided[id(node)]
+            if kind == 'raise':
+                raise PyRaise(payload)
+            return payload
+        v = self.ev(node.value, st)
+        hook = self.c.calls.get('await')
+        if hook is not None:
+            return hook(self, st, [v], {}, node)  # may raise Fork(node, ...) for a suspending await
+        return v
 
     def ev_NamedExpr(self, node, st):
         v = self.ev(node.value, st)
@@ -2013,6 +2064,8 @@ class Engine:
             return z3.Const(fresh_name('unmodelled_' + name.replace('.', '_')), U)
         if name == 'len':
             v = args[0]
+            if isinstance(v, SMap):
+                return v.size
             if isinstance(v, SDict):
                 return v.items.len
             if isinstance(v, SList):
@@ -2121,6 +2174,12 @@ class Engine:
     def call_method(self, recv, meth, node, st):
         args = [self.ev(a, st) for a in node.args]
         target = node.func.value
+        if isinstance(recv, SMap) and meth == 'add' and len(args) == 1:
+            self.assign(target, self.store(recv, args[0], True if recv.vt == 'bool' else args[0], st, node), st)
+            return None
+        if isinstance(recv, SMap) and meth == 'remove' and len(args) == 1:
+            self.assign(target, self.map_remove(recv, args[0], st, node), st)
+            return None
         if isinstance(recv, tuple) and not (recv and recv[0] in ('range', 'boundmethod', 'lambda', '*')) and meth == 'append' and len(args) == 1:
             # a list literal of heterogeneous values is kept as a Python tuple of symbolic values
             self.assign(target, recv + (args[0],), st)
@@ -2205,6 +2264,11 @@ class Engine:
             if key2 in self.c.calls:
                 kw = {k.arg: self.ev(k.value, st) for k in node.keywords}
                 return self.c.calls[key2](self, st, [recv] + args, kw, node)
+        if isinstance(recv, z3.ExprRef) and recv.sort() == U and self.c.opaque_methods:
+            # a method of an opaque object the contract says nothing about: result havocked, call recorded (contracts that
+            # enumerate every permitted call turn the record into a failed obligation)
+            self.unmodelled.append('%s.%s' % (_dotted(target) or '<expr>', meth))
+            return z3.Const(fresh_name('unmodelled_' + meth), U)
         raise Undecided('method %s on %r not modelled (line %d)' % (meth, recv, node.lineno))
 
 
